@@ -184,7 +184,7 @@ def run(tier, v):
     quick = tier == "quick"
     # ---- 1. design
     cfg = "Codec_quick.cfg" if quick else "Codec_thorough.cfg"
-    r = vlib.tlc("Codec", cfg, timeout=3000, heap="3g" if quick else "12g", coverage=quick)
+    r = vlib.tlc("Codec", cfg, timeout=3000, heap="3g" if quick else "6g", coverage=quick)
     if not r["ok"]:
         raise vlib.Infra("Codec model violates %s on the design level:\n%s" % (r["violated"], r["out"][-3000:]))
     cov["states"], cov["transitions"] = r["distinct"], r["states"]
